@@ -526,3 +526,53 @@ def translate_param_ctor(src, fname, prefix='py_'):
     out += 'Definition %s_broken_spin : bool := %s.\n' % (name, 'true' if broken == 'spin' else 'false')
     out += 'Definition %s_broken_number : bool := %s.\n' % (name, 'true' if broken == 'number' else 'false')
     return out
+
+
+# ---------------------------------------------------------------------------------------------
+# address of a string:  T = get_table(a, b) ; return sum(T[i, occupation[i]] for i in range(n))
+def translate_table_sum(src, cls, fname, getter, prefix='py_'):
+    tree = ast.parse(src)
+    fdef = None
+    for n in tree.body:
+        if isinstance(n, ast.ClassDef) and n.name == cls:
+            for m in n.body:
+                if isinstance(m, ast.FunctionDef) and m.name == fname:
+                    fdef = m
+    if fdef is None:
+        raise Unsupported('method not found')
+    args = [a.arg for a in fdef.args.args]
+    if args[:1] != ['self'] or len(args) != 4:
+        raise Unsupported('signature')
+    body = list(fdef.body)
+    if body and isinstance(body[0], ast.Expr) and isinstance(body[0].value, ast.Constant):
+        body = body[1:]
+    if len(body) != 2 or not isinstance(body[0], ast.Assign) or not isinstance(body[1], ast.Return):
+        raise Unsupported('body shape')
+    tr = GTr({})
+    a0 = body[0]
+    if not (len(a0.targets) == 1 and isinstance(a0.targets[0], ast.Name) and isinstance(a0.value, ast.Call)
+            and isinstance(a0.value.func, ast.Name) and a0.value.func.id == getter and len(a0.value.args) == 2
+            and not a0.value.keywords):
+        raise Unsupported('table assignment')
+    tab = a0.targets[0].id
+    targs = [tr.expr(x) for x in a0.value.args]
+    rv = body[1].value
+    if not (isinstance(rv, ast.Call) and isinstance(rv.func, ast.Name) and rv.func.id == 'sum' and len(rv.args) == 1
+            and isinstance(rv.args[0], ast.GeneratorExp) and len(rv.args[0].generators) == 1):
+        raise Unsupported('return')
+    g = rv.args[0]
+    gen = g.generators[0]
+    if gen.ifs or not isinstance(gen.target, ast.Name) or not (isinstance(gen.iter, ast.Call) and isinstance(gen.iter.func, ast.Name)
+                                                                and gen.iter.func.id == 'range' and len(gen.iter.args) == 1):
+        raise Unsupported('generator')
+    iv = gen.target.id
+    occ = args[3]
+    want = '%s[%s, %s[%s]]' % (tab, iv, occ, iv)
+    if ast.unparse(g.elt) != want:
+        raise Unsupported('summand %s' % ast.unparse(g.elt))
+    hi = tr.expr(gen.iter.args[0])
+    sig = ' '.join('(v_%s : Z)' % a for a in args[1:3])
+    name = prefix + fname.lstrip('_')
+    return ('Definition %s (getZ : Z -> Z -> Z -> Z -> Z) %s (v_%s : Z -> Z) : Z :=\n'
+            '  let v_%s := getZ %s %s in zsum (fun v_%s => v_%s v_%s (v_%s v_%s)) (0) %s.\n'
+            % (name, sig, occ, tab, targs[0], targs[1], iv, tab, iv, occ, iv, hi))
